@@ -180,6 +180,10 @@ def build_configs():
     C.append(_cfg("default[post=logit]", "rescaletobounds", "post-logit", "default", [("a", "box", "logit")], dict(post_rescaling="logit", update_bounds=False)))
     C.append(_cfg("default[post=log]", "rescaletobounds", "post-log", "default", [("a", "box", "log")], dict(post_rescaling="log", update_bounds=False)))
     C.append(_cfg("default[post=exp]", "rescaletobounds", "post-exp", "default", lin1, dict(post_rescaling="exp")))
+    # a prime-space prior is asked for together with a non-linear post-rescaling: whatever is offered must still be prior / Jacobian (on the unchanged code none is offered)
+    C.append(_cfg("default[post=logit,prior=uniform]", "rescaletobounds", "post-logit", "default", [("a", "box", "logit")], dict(post_rescaling="logit", update_bounds=False, prior="uniform")))
+    C.append(_cfg("default[post=log,prior=uniform]", "rescaletobounds", "post-log", "default", [("a", "box", "log")], dict(post_rescaling="log", update_bounds=False, prior="uniform")))
+    C.append(_cfg("logit[prior=uniform]", "rescaletobounds", "post-logit", "logit", [("a", "box", "logit"), ("b", "box", "logit")], dict(prior="uniform")))
     C.append(_cfg("default[pre=log,post=logit]", "rescaletobounds", "post-logit", "default", [("a", "pos", "logit")],
                   dict(pre_rescaling="log", post_rescaling="logit", update_bounds=False)))
     for name, role in [("logit", "logit"), ("log-rescale", "log")]:
@@ -850,8 +854,8 @@ def _run_cell(cfg, cell, rng, npts, n, scratch, fd):
             v = xp[pp][np.isfinite(xp[pp])]
             lo_, hi_ = (float(v.min()), float(v.max())) if v.size else (-1.0, 1.0)
             pbs = [r.prime_prior_bounds[pp] for r in m.comps if getattr(r, "prime_prior_bounds", None) and pp in r.prime_prior_bounds]
-            if pbs:
-                lo_, hi_ = float(pbs[0][0]), float(pbs[0][1])
+            if pbs and np.isfinite(pbs[0][0]) and np.isfinite(pbs[0][1]):
+                lo_, hi_ = float(pbs[0][0]), float(pbs[0][1])    # (unbounded prime-prior bounds: probe around the image of the box instead)
             w = max(hi_ - lo_, 1e-300)
             probe[pp] = rng.uniform(lo_ - 0.3 * w, hi_ + 0.3 * w, probe.size)
         with np.errstate(all="ignore"):
@@ -913,6 +917,7 @@ def worker(case):
 
 def main():
     chk = Check("C07", "exploration")
+    chk.max_inconclusive = 0    # every cell is deterministic and cheap: a cell the harness could not decide (an exception inside it) makes the whole check inconclusive
     assert_repo()
     logging.getLogger("nessai").setLevel(logging.ERROR)
     from vlib.farm import run_cases
